@@ -3723,11 +3723,13 @@ func recv(n *node) {
 				done := f.done
 				f.mutex.RUnlock()
 
-				var chosen int
-				chosen, getFrame(f, l).data[i], _ = reflect.Select([]reflect.SelectCase{done, {Dir: reflect.SelectRecv, Chan: ch}})
+				chosen, v, _ := reflect.Select([]reflect.SelectCase{done, {Dir: reflect.SelectRecv, Chan: ch}})
 				if chosen == 0 {
+					// Cancelled: v is the zero value of the done channel, which
+					// must not be stored in the destination variable.
 					return nil
 				}
+				getFrame(f, l).data[i] = v
 				return tnext
 			}
 		}
